@@ -274,6 +274,98 @@ def r01_9(facts, res):
         raise BrokenCheck("R01-9: no function converts attribute-list declarations and reaches Context::entity")
 
 
+def r01_12(facts, res, rule="R01-12"):
+    """XML 1.0 4.2: "If the same entity is declared more than once, the first declaration encountered is binding".  The lookup
+    in Context::entity has to stop at the first declaration with the name: Iterator::find / position, or a loop that leaves
+    at the match.  A loop that keeps assigning (last match wins), rfind, last() or rev() bind the last declaration."""
+    import guards
+    st = res.rule(rule, instances=1)
+    f = facts.fn("xml_info::Context::entity")
+    names = [m["m"] for m in walk(f["body"]) if m.get("k") == "MethodCall"]
+    clos = [c for c in facts.fns.values() if c.get("parent") == f["path"] and "body" in c]
+    first = any(m in ("find", "find_map", "position") for m in names) and not any(m in ("rev", "rfind", "rposition", "last") for m in names)
+    if not first:
+        # explicit loop: the branch that matches the name leaves the loop / function
+        for n in walk(f["body"]):
+            if n.get("k") == "Loop" or (n.get("k") == "Match" and n.get("src") == "ForLoop"):
+                for i in walk(n):
+                    if i.get("k") == "If" and any(x.get("k") == "Binary" and x.get("op") == "==" for x in walk(i["cond"])) and \
+                            any(x.get("k") in ("Ret", "Break") for x in walk(i["then"])):
+                        first = True
+    res.oblige(1, first)
+    if not first:
+        res.add(Finding(rule, "Context::entity", "Context::entity does not stop at the first declaration of the name (no find / position and no "
+                        "loop exit at the match): a re-declared entity binds its last declaration", f["file"], f["line"], {}))
+
+
+ERROR_DROPPERS = ("ok", "unwrap_or", "unwrap_or_default", "unwrap_or_else", "is_ok", "is_err", "err")
+
+
+def r01_13(facts, res, rule="R01-13"):
+    """Error discipline of the conversion parser model -> information set: a Result<_, error::Error> produced while a
+    document is built (functions reachable from XmlDocument::new) is propagated; `.ok()`, `unwrap_or*`, `let _ =`, `if let Ok`
+    turn an ill-formed construct (undeclared entity, illegal character reference in an attribute default) into nothing."""
+    st = res.rule(rule, instances=0)
+    reach, _ = facts.reachable([facts.fn("xml_info::XmlDocument::new")["id"]])
+    for fid in sorted(reach, key=lambda i: facts.fns[i]["path"] if i in facts.fns else ""):
+        f = facts.fns.get(fid)
+        if f is None or f["crate"] != "xml_info" or "body" not in f or f.get("derived"):
+            continue
+        for n in walk(f["body"]):
+            if n.get("k") == "MethodCall" and n["m"] in ERROR_DROPPERS:
+                rt = str(n.get("recvty", "")).lstrip("&")
+                if rt.startswith("std::result::Result<") and "error::Error" in rt:
+                    r = n.get("recv", {})
+                    callee = r.get("m") or str(r.get("f", {}).get("path", ""))
+                    st["instances"] += 1
+                    res.oblige(1, False)
+                    res.add(Finding(rule, "%s|%s|%s" % (f["path"], n["m"], callee.split("::")[-1]), "%s discards the error of %s with .%s(): an ill-formed "
+                                    "construct met while the document is built is silently dropped instead of refusing the document"
+                                    % (f["path"], callee, n["m"]), f["file"], n.get("ln"), {}))
+            if n.get("k") == "Match" and n.get("src") == "Try":
+                st["instances"] += 1
+                res.oblige(1, True)
+    if st["instances"] < 12:
+        raise BrokenCheck("%s: %d fallible steps in the construction (floor 12)" % (rule, st["instances"]))
+
+
+VARIANT_MAP = {
+    # constructor: {parser-model variant: information-set variant it must build}
+    "xml_info::XmlEntityValue::new": {"ParameterEntityReference": "Parameter", "Character": "Character", "Entity": "Entity", "Text": "Text"},
+    "xml_info::XmlAttributeValue::new": {"Character": "Char", "Entity": "Entity", "Text": "Text"},
+}
+
+
+def r01_14(facts, res, rule="R01-14"):
+    """The kinds of the pieces of a literal survive the conversion: a parameter-entity reference inside an entity literal stays
+    a Parameter piece (which the expansion refuses), a character reference a Character piece ...; re-labelling a piece as Text
+    makes an unsupported or special construct look like plain text."""
+    from props.c08 import variants_of_pat
+    st = res.rule(rule, instances=0)
+    for path, want in VARIANT_MAP.items():
+        f = facts.fn(path)
+        for n in walk(f["body"]):
+            if n.get("k") != "Match" or n.get("src") != "Normal":
+                continue
+            for arm in n["arms"]:
+                for v in variants_of_pat(arm["pat"]):
+                    if v not in want:
+                        continue
+                    st["instances"] += 1
+                    built = {str(m.get("path") or m.get("f", {}).get("path", "")).split("::")[-1] for m in walk(arm["body"])
+                             if (m.get("k") == "Path" and str(m.get("res", "")).startswith("Ctor")) or
+                             (m.get("k") == "Call" and str(m.get("f", {}).get("res", "")).startswith("Ctor"))}
+                    built &= set(want.values()) | {"Text", "Parameter", "Character", "Char", "Entity"}
+                    nested = [a for a in walk(arm["body"]) if a.get("k") == "Match" and a.get("src") == "Normal"]
+                    ok = want[v] in built and (built <= {want[v]} or nested)
+                    res.oblige(1, ok)
+                    if not ok:
+                        res.add(Finding(rule, "%s|%s" % (path.split("::")[-2], v), "%s builds %s for a %s piece (expected %s)"
+                                        % (path, sorted(built) or "nothing", v, want[v]), f["file"], arm.get("ln"), {}))
+    if st["instances"] < 5:
+        raise BrokenCheck("%s: %d arms (floor 5)" % (rule, st["instances"]))
+
+
 def run(facts, tier):
     res = Result("C01")
     res.explanation = (
@@ -300,6 +392,9 @@ def run(facts, tier):
     c11.c11_7(facts, res, facts.fn("xml_info::<XmlElement as Element>::attributes"), rule="R01-7")
     r01_8(facts, res)
     r01_9(facts, res)
+    r01_12(facts, res)
+    r01_13(facts, res)
+    r01_14(facts, res)
     c11.c11_1(facts, res, "R01-11")     # attribute values after reference expansion: the arms of the two expansion routines
     # a well-formed start tag may carry a:id next to b:id: the duplicate test has to compare whole names (shared with C02)
     from props import c02
